@@ -483,14 +483,17 @@ Proof.
   destruct (i <? 62) eqn:E3; [lia|]. destruct (i =? 62); lia.
 Qed.
 
+Lemma b64char_clean' i : 32 < b64char i /\ b64char i < 256.
+Proof. pose proof (b64char_clean i). lia. Qed.
+
 Lemma clean_b64 : forall l, clean (b64 l).
 Proof.
   fix IH 1. intros [|a [|b [|c r]]]; cbn [b64].
   - constructor.
-  - repeat constructor; try apply b64char_clean; lia.
-  - repeat constructor; try apply b64char_clean; lia.
-  - constructor; [apply b64char_clean|]. constructor; [apply b64char_clean|].
-    constructor; [apply b64char_clean|]. constructor; [apply b64char_clean|]. apply IH.
+  - repeat constructor; try apply b64char_clean'; lia.
+  - repeat constructor; try apply b64char_clean'; lia.
+  - constructor; [apply b64char_clean'|]. constructor; [apply b64char_clean'|].
+    constructor; [apply b64char_clean'|]. constructor; [apply b64char_clean'|]. apply IH.
 Qed.
 
 Lemma basic_value_no_crlf user pass : no_crlf (basic_value user pass).
